@@ -80,7 +80,11 @@ def tlc(workdir, module, cfg, workers=16, args=(), timeout=1800, heap="8g", extr
         dst = os.path.join(sdir, os.path.basename(f))
         if os.path.abspath(f) != os.path.abspath(dst):
             shutil.copy(f, dst)
-    jopts = ["-XX:+UseParallelGC", "-Xmx" + heap, "-Xss64m"]
+    # TLC unpacks its standard modules into a fresh directory under java.io.tmpdir on every start and leaves it
+    # behind; keep it inside this run's scratch directory (removed with it) instead of /tmp
+    jtmp = os.path.join(sdir, "jtmp")
+    os.makedirs(jtmp, exist_ok=True)
+    jopts = ["-XX:+UseParallelGC", "-Xmx" + heap, "-Xss64m", "-Djava.io.tmpdir=" + jtmp]
     if deque:
         jopts.append("-Dtlc2.tool.queue.IStateQueue=StateDeque")
     cmd = ["java"] + jopts + ["-cp", TLAJAR, "tlc2.TLC", "-workers", str(workers),
